@@ -139,6 +139,7 @@ func (c17) Gen(r *sim.RNG, tier string, idx int) *Scenario {
 		s.PCTDepth = 1 + r.Intn(3)
 		s.PCTSteps = []int{50, 200, 1000}[r.Intn(3)]
 	}
+	s.StepYield = []int{0, 0, 37, 211, 1009}[r.Intn(5)]
 	sc.Sched = s
 	sc.OrderKeys = []uint64{sim.Mix(r.Uint64(), "o") | 1}
 	return sc
